@@ -25,6 +25,15 @@ horizontal / vertical; dyadic and non-dyadic spacing), node sets on the fracture
 (non-uniform, non-nested), reversed node order; every sequence of up to 3 replacements from a menu of
 mortar (both sides / one side / different sides), secondary and primary replacements.
 
+Side-order family (both tiers): update_mortar / interface_map given only the second side, or both sides in the key order (RIGHT, LEFT) with
+different grids per side; "per side" means the cells the MortarGrid itself reports for the side (side_grids / project_to_side_grids /
+cell_volumes): per-side sums, the integrated projection of the secondary cell volumes gives the side's mortar cell volumes, a side is
+coupled to the primary faces of its own geometric side only.
+2-D family in arbitrary planes (both tiers; larger in thorough): structured triangle grids (row-wise / column-wise node numbering, ratios
+1x1 ... 4x3, 2x5) of a square and of a parallelogram fracture embedded in horizontal, vertical and tilted planes (and at length scales
+1/100 and 50 in thorough); match_2d and the update_mortar / update_secondary states of a two-sided 2-D MortarGrid compared with exact
+overlap-area fractions (rational polygon clipping in the in-plane coordinates known to the harness).
+
 Detection power (scratch copy of /repo/src with the candidate defect below repaired so that the baseline exits 0,
 POREPY_SRC=<copy>, quick tier; every mutant run exited 1 with VIOLATION lines):
   M1 mortar_grid._set_projections: ``_mortar_to_primary_int`` built from ``_primary_to_mortar_int.T`` (avg/int mixed up)
@@ -45,6 +54,16 @@ Candidate defect of the unchanged tree found by this check (kept strict; reporte
   fracture faces from the non-zeros of _primary_to_mortar_int without uniquifying them, so every such face is counted
   once per mortar cell and the primary projections come out multiplied by that multiplicity (row/column sums 2 instead
   of 1).  signature "update_primary, some face coupled to several mortar cells".
+
+Candidate defect of the unchanged tree found by the 2-D family in arbitrary planes (kept strict; reported to the lead):
+  match_grids.match_2d (pp.intersections.triangulations -> shapely / GEOS intersection of the centred, projected triangles) loses a whole
+  overlap or counts a pair of cells that only touch along part of an edge, when cell edges of the two grids are collinear but not
+  axis-parallel (any nested or partly nested refinement of a sheared or rotated fracture), e.g. horizontal plane z=1/2, parallelogram
+  (x, y) = (u + 7/20 v, 3/20 u + 4/5 v): match_2d(new 2x2, old 4x3 structured triangles) gives weight 0 instead of 1/3 (averaged) / 1
+  (integrated) for (new cell 3, old cell 5), the old cell lying inside the new one; tilted plane A, same parallelogram: match_2d(new 3x2,
+  old 2x2) gives (new 10, old 3) the weight 1 although the cells share only part of an edge (row sum 2, column sum 5/3).  update_mortar /
+  update_secondary inherit it (row / column sums 2, 5/3, 0; or ValueError "Check not satisfied for the primary grid").
+  signatures "scaling .., <plane>, <shape>, whole overlaps lost / cells that only touch counted as overlapping" and "2-D mortar, update_.., <plane>, <shape>".
 """
 from __future__ import annotations
 
@@ -59,8 +78,12 @@ META = {
                  "overlap oracle for match_1d and for the states whose weights the statement determines",
     "text": "Bounded (tier B): 1-D mortars between a 2-D tensor grid with one fracture and its 1-D fracture grid; all sequences of up to 3 "
             "replacements (mortar / secondary / primary, refinement ratios 2-4, non-nested and non-uniform node sets, one-sided mortar "
-            "replacement) from enumerated menus; match_1d on all ordered pairs of the node sets; 2-D mortars (match_2d, structured triangle "
-            "grids) in the thorough tier only. Tier P: the transposition clause holds by construction in _set_projections for all shapes and "
+            "replacement) from enumerated menus, plus side-order operations (update_mortar / interface_map with only the second side, or with the sides "
+            "in the key order (RIGHT, LEFT) and different grids per side; per-side clauses on the cells the MortarGrid reports for each side); "
+            "match_1d on all ordered pairs of the node sets; 2-D mortars: match_2d and sequences of <= 2 update_mortar / update_secondary "
+            "operations on structured triangle grids (row- / column-wise numbering) of a square and a parallelogram fracture in horizontal, vertical "
+            "and tilted planes against exact overlap-area fractions (3 families quick, 12 incl. two other length scales thorough); horizontal-plane "
+            "sum clauses of the older 2-D sweep in the thorough tier. Tier P: the transposition clause holds by construction in _set_projections for all shapes and "
             "contents; that every mutator calls it for the side it changed, and the sum clauses, are bounded (sweep). Not covered: update_primary for 2-D mortars (NotImplementedError in porepy), "
             "simplex 2-D/3-D host grids (gmsh), fractures crossed by another fracture (match_grids_along_1d_mortar rejects them).",
     "note": "covered primary faces and their geometric side are taken from the fracture_faces tags and geometry of the independently "
@@ -298,10 +321,10 @@ def apply_op(base, state, intf, g2, g1, op, via_mdg=None):
     kind = op[0]
     if kind == "M":
         new = {}
-        for k, side in (("L", MS.LEFT_SIDE), ("R", MS.RIGHT_SIDE)):
-            spec = op[1].get(k)
+        # the dictionary of new side grids is built in the key order of the operation ({"L", "R"}, {"R", "L"}, only one of them)
+        for k, spec in op[1].items():
             if spec is not None:
-                new[side] = base.grid1d(*spec)
+                new[{"L": MS.LEFT_SIDE, "R": MS.RIGHT_SIDE}[k]] = base.grid1d(*spec)
         if via_mdg is not None:
             arg = new if op[2] == "dict" else pp.MortarGrid(1, new) if len(new) == 2 else new
             via_mdg.replace_subdomains_and_interfaces(interface_map={intf: arg})
@@ -345,7 +368,9 @@ def precondition_class(base, state, op, intf):
         multi = bool(((P != 0).sum(axis=0) > 1).any())
         return f"{kind}, {'some face coupled to several mortar cells' if multi else 'every face coupled to one mortar cell'}"
     if op[0] == "M" and sum(1 for k in "LR" if op[1].get(k) is not None) == 1:
-        kind += " one-side"
+        kind += " one-side" if op[1].get("L") is not None else ", second side only"
+    elif op[0] == "M" and [k for k in op[1] if op[1][k] is not None][0] == "R":
+        kind += ", sides given in the order (RIGHT, LEFT)"
     return f"{kind}, m/p {mp}, m/s {ms}".replace("mortar ", "").replace("matching", "match")
 
 
@@ -368,6 +393,35 @@ def check_state(base, state, intf, g2, g1, finfo, after_S):
     MS = base.pp.grids.mortar_grid.MortarSides
     lab = {MS.LEFT_SIDE: "L", MS.RIGHT_SIDE: "R"}
     sec_cells = base.cells1d(*state.sec)
+    # 'on each mortar side' -- the cells of a side are the ones the MortarGrid itself reports (side_grids / project_to_side_grids /
+    # cell_volumes, in that order); the rows of the projections must follow the same order, whatever the key order or the subset of
+    # sides the replacement grids were given in.  Holds in every state (the integrated weights are overlap / secondary volume, also
+    # when composed through earlier mortar grids).
+    side_sign = getattr(intf, "_verif_side_sign")
+    vol_sec = np.array([float(c[1] - c[0]) for c in sec_cells])
+    projs = list(intf.project_to_side_grids())
+    if [lab.get(s) for s, _ in rows] not in (["L", "R"], ["R", "L"]) or len(projs) != len(rows):
+        fails.append(("side grids: the mortar grid keeps its two sides", f"sides {[str(s) for s, _ in rows]}"))
+        return fails
+    for (side, rr), (proj, g_side) in zip(rows, projs):
+        mc = base.cells1d(*state.mort[lab[side]])
+        if len(mc) != len(rr):
+            continue  # reported below ("side grids: replaced by the given grids")
+        vol_m = np.array([float(c[1] - c[0]) for c in mc])
+        pr = proj.tocsr()
+        if pr.shape != (len(rr), intf.num_cells) or pr.indices.tolist() != list(rr) or float(np.max(np.abs(intf.cell_volumes[rr] - vol_m))) > TOL \
+                or float(np.max(np.abs(g_side.cell_volumes - vol_m))) > TOL:
+            fails.append(("per side: side_grids / project_to_side_grids / cell_volumes describe the grid that was set on the side", f"{side}: cell_volumes "
+                          f"{np.round(intf.cell_volumes[rr], 12).tolist()}, grid set by the harness {np.round(vol_m, 12).tolist()}"))
+        got = D["S_int"][rr, :] @ vol_sec
+        if float(np.max(np.abs(got - vol_m))) > TOL:
+            fails.append(("per side: the integrated projection of the secondary cell volumes gives the side's mortar cell volumes",
+                          f"{side}: projected {np.round(got, 12).tolist()}, side grid {np.round(vol_m, 12).tolist()}"))
+        if side_sign.get(lab[side]):
+            wrong = [int(f) for f in np.where(np.abs(D["P_int"][rr, :]).sum(axis=0) + np.abs(D["P_avg"][rr, :]).sum(axis=0) > 0)[0]
+                     if int(f) in finfo and finfo[int(f)][1] != side_sign[lab[side]]]
+            if wrong:
+                fails.append(("per side: a mortar side is coupled to the primary faces of its own geometric side only", f"{side}: faces {wrong} lie on the other side of the fracture"))
     if state.exact or after_S:
         for side, rr in rows:
             mc = base.cells1d(*state.mort[lab[side]])
@@ -437,6 +491,15 @@ def menus(tier):
     return quick if tier == "quick" else quick + extra
 
 
+def side_order_menu(tier):
+    """update_mortar calls whose dictionary of new side grids is not in the stored (LEFT, RIGHT) key order: only the second side, or
+    both sides with RIGHT first (different grids per side, so that a side taken for the other one is visible)."""
+    U = lambda n, rev=False: (n, rev)  # noqa: E731
+    quick = [("M", {"R": U("U3")}, "dict"), ("M", {"R": U("N3"), "L": U("U4")}, "mortar")]
+    extra = [("M", {"R": U("U1"), "L": U("U3", True)}, "dict")]
+    return quick if tier == "quick" else quick + extra
+
+
 def bases(pp, np, tier):
     half = Fr(1, 2)
     out = [
@@ -446,6 +509,304 @@ def bases(pp, np, tier):
     if tier != "quick":
         out.append(Base(pp, np, "T: [0,3]x[0,2], horizontal fracture with both tips interior, non-dyadic spacing", 0, 1, 2, (Fr(0),), (Fr(3),), (Fr(0), Fr(7, 10), Fr(2)), Fr(7, 10)))
     return out
+
+
+# ----------------------------------------------------------------------------- 2-D mortars in arbitrary planes (exact area oracle)
+
+# name -> (origin, e1, e2); e1, e2 orthonormal with rational components, so that cell areas equal the in-plane areas
+FRAMES2D = {
+    "horizontal plane z=1/2": ((Fr(0), Fr(0), Fr(1, 2)), (Fr(1), Fr(0), Fr(0)), (Fr(0), Fr(1), Fr(0))),
+    "vertical plane y=1/2": ((Fr(0), Fr(1, 2), Fr(0)), (Fr(1), Fr(0), Fr(0)), (Fr(0), Fr(0), Fr(1))),
+    "vertical plane x=1/4": ((Fr(1, 4), Fr(0), Fr(0)), (Fr(0), Fr(1), Fr(0)), (Fr(0), Fr(0), Fr(1))),
+    "tilted plane A": ((Fr(1, 5), Fr(-1, 10), Fr(2, 5)), (Fr(2, 3), Fr(1, 3), Fr(2, 3)), (Fr(-2, 3), Fr(2, 3), Fr(1, 3))),
+    "tilted plane B": ((Fr(0), Fr(0), Fr(0)), (Fr(1, 3), Fr(2, 3), Fr(2, 3)), (Fr(2, 3), Fr(-2, 3), Fr(1, 3))),
+}
+# in-plane shape of the fracture: image of the unit square under a rational 2x2 matrix
+SHAPES2D = {"square": ((Fr(1), Fr(0)), (Fr(0), Fr(1))), "parallelogram": ((Fr(1), Fr(7, 20)), (Fr(3, 20), Fr(4, 5)))}
+_OVERLAP2D = {}
+
+
+def _tri_clip_area(ta, tb):
+    """Exact area of the intersection of two triangles (lists of three (Fraction, Fraction)); Sutherland-Hodgman."""
+    if max(p[0] for p in ta) <= min(p[0] for p in tb) or max(p[0] for p in tb) <= min(p[0] for p in ta) \
+            or max(p[1] for p in ta) <= min(p[1] for p in tb) or max(p[1] for p in tb) <= min(p[1] for p in ta):
+        return Fr(0)
+
+    def ccw(t):
+        (ax, ay), (bx, by), (cx, cy) = t
+        return list(t) if (bx - ax) * (cy - ay) - (by - ay) * (cx - ax) > 0 else [t[0], t[2], t[1]]
+
+    poly, clip = ccw(ta), ccw(tb)
+    for k in range(3):
+        a, b = clip[k], clip[(k + 1) % 3]
+        inp, poly = poly, []
+        if not inp:
+            return Fr(0)
+        s = [(b[0] - a[0]) * (p[1] - a[1]) - (b[1] - a[1]) * (p[0] - a[0]) for p in inp]
+        for m in range(len(inp)):
+            p, q, sp, sq = inp[m], inp[(m + 1) % len(inp)], s[m], s[(m + 1) % len(inp)]
+            if sp >= 0:
+                poly.append(p)
+            if sp * sq < 0:
+                t = sp / (sp - sq)
+                poly.append((p[0] + t * (q[0] - p[0]), p[1] + t * (q[1] - p[1])))
+    if len(poly) < 3:
+        return Fr(0)
+    return abs(sum(poly[i][0] * poly[(i + 1) % len(poly)][1] - poly[(i + 1) % len(poly)][0] * poly[i][1] for i in range(len(poly)))) / 2
+
+
+class Fam2D:
+    """Structured triangle grids of one fracture (shape) embedded in one plane (frame) at one length scale.  A grid is named by
+    spec = (nx, ny, colwise): nx x ny rectangles cut into two triangles each; colwise: the nodes are numbered column by column instead
+    of row by row (the mesh is mirrored in the diagonal, the covered region is the same).  In-plane node coordinates are exact
+    Fractions known to the harness; the cell-node connectivity is read from porepy's grid."""
+
+    def __init__(self, pp, np, frame, shape, scale=Fr(1)):
+        self.pp, self.np, self.frame, self.shape, self.scale = pp, np, frame, shape, Fr(scale)
+        self._tri, self._grid = {}, {}
+
+    @property
+    def name(self):
+        return f"{self.frame}, {self.shape}" + (f", length scale {self.scale}" if self.scale != 1 else "")
+
+    def uv(self, spec, scale=None):
+        nx, ny, colwise = spec
+        A, s, out = SHAPES2D[self.shape], (self.scale if scale is None else scale), []
+        for k in range((nx + 1) * (ny + 1)):
+            x, y = Fr(k % (nx + 1), nx), Fr(k // (nx + 1), ny)
+            if colwise:
+                x, y = y, x
+            out.append((s * (A[0][0] * x + A[0][1] * y), s * (A[1][0] * x + A[1][1] * y)))
+        return out
+
+    def grid(self, spec):
+        pp, np = self.pp, self.np
+        spec = tuple(spec)
+        if spec in self._grid:
+            return self._grid[spec]  # never handed to porepy for keeping: update_mortar stores copies, the initial sides are copies
+        nx, ny, _ = spec
+        g = pp.StructuredTriangleGrid(np.array([nx, ny]), np.array([1.0, 1.0]))
+        ref = np.array([[(k % (nx + 1)) / nx for k in range(g.num_nodes)], [(k // (nx + 1)) / ny for k in range(g.num_nodes)]])
+        if g.num_nodes != (nx + 1) * (ny + 1) or not np.allclose(g.nodes[:2], ref, rtol=0, atol=1e-14):
+            raise AssertionError("harness precondition: node numbering of StructuredTriangleGrid")
+        o, e1, e2 = FRAMES2D[self.frame]
+        g.nodes = np.array([[float(o[d] + e1[d] * u + e2[d] * v) for (u, v) in self.uv(spec)] for d in range(3)])
+        g.compute_geometry()
+        tri = g.cell_nodes().tocsc().indices.reshape((3, g.num_cells), order="F")
+        self._tri[spec] = [tuple(int(n) for n in tri[:, c]) for c in range(g.num_cells)]
+        self._grid[spec] = g
+        return g
+
+    def cells(self, spec):
+        """Triangles of the grid at length scale 1, in porepy's cell order."""
+        if tuple(spec) not in self._tri:
+            self.grid(spec)
+        uv = self.uv(spec, Fr(1))
+        return [[uv[n] for n in c] for c in self._tri[tuple(spec)]]
+
+    def overlaps(self, a, b):
+        """(W, area_a, area_b) as float arrays: exact overlap areas |a_i & b_j| and cell areas, at this family's length scale."""
+        np = self.np
+        key = (self.shape, tuple(a), tuple(b))
+        if key not in _OVERLAP2D:
+            ca, cb = self.cells(a), self.cells(b)
+            W = [[_tri_clip_area(x, y) for y in cb] for x in ca]
+            ar_a = [_tri_clip_area(x, x) for x in ca]
+            ar_b = [_tri_clip_area(y, y) for y in cb]
+            if any(sum(r) != v for r, v in zip(W, ar_a)) or any(sum(W[i][j] for i in range(len(ca))) != ar_b[j] for j in range(len(cb))):
+                raise AssertionError("harness: the exact overlap areas do not add up to the cell areas")
+            _OVERLAP2D[key] = tuple(np.array([[float(w) for w in r] for r in W]) if k == 0 else np.array([float(v) for v in (ar_a if k == 1 else ar_b)]) for k in range(3))
+        s2 = float(self.scale * self.scale)
+        W, ar_a, ar_b = _OVERLAP2D[key]
+        return W * s2, ar_a * s2, ar_b * s2
+
+    def expected(self, a, b, scaling):
+        """Exact weights between grid a (rows) and grid b (columns): 'int' |a_i & b_j| / |b_j|, 'avg' |a_i & b_j| / |a_i|."""
+        W, ar_a, ar_b = self.overlaps(a, b)
+        return W / ar_b[None, :] if scaling == "int" else W / ar_a[:, None]
+
+
+START2D = (2, 2, False)
+
+
+def specs2d(tier):
+    quick = [START2D, (3, 2, False), (2, 3, True), (1, 1, False)]
+    return quick if tier == "quick" else quick + [(2, 2, True), (3, 3, True), (4, 3, False), (2, 5, True)]
+
+
+def families2d(pp, np, tier):
+    quick = [("vertical plane y=1/2", "square", 1), ("tilted plane A", "parallelogram", 1), ("horizontal plane z=1/2", "parallelogram", 1)]
+    extra = [(f, s, 1) for f in FRAMES2D for s in SHAPES2D if (f, s, 1) not in quick] + [("tilted plane B", "parallelogram", Fr(1, 100)), ("vertical plane x=1/4", "square", 50)]
+    return [Fam2D(pp, np, *x) for x in (quick if tier == "quick" else quick + extra)]
+
+
+def menu2d(tier):
+    B, C, D, E = (3, 2, False), (2, 3, True), (1, 1, False), (3, 3, True)
+    quick = [("M", {"L": B, "R": C}), ("M", {"R": B}), ("S", C), ("S", E)]
+    extra = [("M", {"R": D, "L": C}), ("M", {"L": (4, 3, False)}), ("M", {"L": E, "R": E}), ("S", (2, 2, True)), ("S", (2, 5, True))]
+    return quick if tier == "quick" else quick + extra
+
+
+def initial2d(fam):
+    """Matching two-sided 2-D MortarGrid on the START2D grid with abstract primary faces: secondary cell c is coupled to the primary faces
+    c (first side) and nc + c (second side); three more primary faces are not covered.  Returns (intf, state)."""
+    pp, np = fam.pp, fam.np
+    import scipy.sparse as sps
+
+    MS = pp.grids.mortar_grid.MortarSides
+    g = fam.grid(START2D)
+    nc = g.num_cells
+    fc = sps.csc_matrix((np.ones(2 * nc, dtype=bool), (np.r_[np.arange(nc), np.arange(nc)], np.arange(2 * nc))), shape=(nc, 2 * nc + 3))
+    intf = pp.MortarGrid(2, {MS.LEFT_SIDE: g.copy(), MS.RIGHT_SIDE: g.copy()}, fc)
+    # direct: the side's block of the primary / secondary maps is a single overlap matrix (not a product through earlier mortar grids)
+    state = {"nc0": nc, "mort": {"L": START2D, "R": START2D}, "sec": START2D, "p_direct": {"L": True, "R": True}, "s_direct": {"L": True, "R": True}}
+    return intf, state
+
+
+def apply_op2d(fam, state, intf, op, tol=1e-6):
+    pp = fam.pp
+    MS = pp.grids.mortar_grid.MortarSides
+    if op[0] == "M":
+        new = {{"L": MS.LEFT_SIDE, "R": MS.RIGHT_SIDE}[k]: fam.grid(tuple(spec)) for k, spec in op[1].items()}
+        intf.update_mortar(new, tol)
+        for k, spec in op[1].items():
+            # the product  match(new, old) * (old maps)  is a single overlap matrix iff the old maps of the side were one-to-one
+            state["p_direct"][k] = state["p_direct"][k] and state["mort"][k] == START2D
+            state["s_direct"][k] = state["s_direct"][k] and state["mort"][k] == state["sec"]
+            state["mort"][k] = tuple(spec)
+    elif op[0] == "S":
+        intf.update_secondary(fam.grid(tuple(op[1])), tol)
+        state["sec"] = tuple(op[1])
+        state["s_direct"] = {"L": True, "R": True}
+    else:
+        raise AssertionError(op)
+
+
+def check_state2d(fam, state, intf, tol=1e-10):
+    """The statement's clauses on a two-sided 2-D MortarGrid; weights against exact overlap areas where a block is a single overlap matrix."""
+    np = fam.np
+    MS = fam.pp.grids.mortar_grid.MortarSides
+    lab = {MS.LEFT_SIDE: "L", MS.RIGHT_SIDE: "R"}
+    nc0 = state["nc0"]
+    fails = []
+    _, ar_sec, _ = fam.overlaps(state["sec"], state["sec"])
+    D = check_sums(np, intf, 2 * nc0 + 3, len(ar_sec), list(range(2 * nc0)), fails, tol)
+    if D is None:
+        return fails
+    rows, _ = side_rows(intf)
+    projs = list(intf.project_to_side_grids())
+    if [lab.get(s) for s, _ in rows] not in (["L", "R"], ["R", "L"]) or len(projs) != len(rows):
+        return fails + [("side grids: the mortar grid keeps its two sides", f"sides {[str(s) for s, _ in rows]}")]
+    atol = tol * max(1.0, float(fam.scale) ** 2)
+    for (side, rr), (proj, g_side) in zip(rows, projs):
+        k = lab[side]
+        W0, ar_m, ar_0 = fam.overlaps(state["mort"][k], START2D)
+        if len(ar_m) != len(rr):
+            fails.append(("side grids: replaced by the given grids", f"{side}: {len(rr)} cells, expected {len(ar_m)}"))
+            continue
+        pr = proj.tocsr()
+        if pr.shape != (len(rr), intf.num_cells) or pr.indices.tolist() != list(rr) or float(np.max(np.abs(intf.cell_volumes[rr] - ar_m))) > atol \
+                or float(np.max(np.abs(g_side.cell_volumes - ar_m))) > atol:
+            fails.append(("per side: side_grids / project_to_side_grids / cell_volumes describe the grid that was set on the side",
+                          f"{side}: cell_volumes {np.round(intf.cell_volumes[rr], 12).tolist()}, grid set by the harness {np.round(ar_m, 12).tolist()}"))
+        got = D["S_int"][rr, :] @ ar_sec
+        if float(np.max(np.abs(got - ar_m))) > atol:
+            fails.append(("per side: the integrated projection of the secondary cell volumes gives the side's mortar cell volumes",
+                          f"{side}: projected {np.round(got, 12).tolist()}, side grid {np.round(ar_m, 12).tolist()}"))
+        own = np.zeros(2 * nc0 + 3, dtype=bool)
+        off = 0 if k == "L" else nc0
+        own[off:off + nc0] = True
+        if np.any(D["P_int"][rr][:, ~own] != 0) or np.any(D["P_avg"][rr][:, ~own] != 0):
+            fails.append(("per side: a mortar side is coupled to the primary faces of its own geometric side only", f"{side}: weight on faces of the other side"))
+        if state["s_direct"][k]:
+            for nm, sc in (("S_int", "int"), ("S_avg", "avg")):
+                d = float(np.max(np.abs(D[nm][rr, :] - fam.expected(state["mort"][k], state["sec"], sc)), initial=0.0))
+                if d > tol:
+                    fails.append((f"secondary_to_mortar_{sc}: exact overlap fractions", f"{side}: max difference {d:.3e}"))
+        if state["p_direct"][k]:
+            for nm, sc in (("P_int", "int"), ("P_avg", "avg")):
+                E = np.zeros((len(rr), 2 * nc0 + 3))
+                E[:, off:off + nc0] = fam.expected(state["mort"][k], START2D, sc)
+                d = float(np.max(np.abs(D[nm][rr, :] - E), initial=0.0))
+                if d > tol:
+                    fails.append((f"primary_to_mortar_{sc}: exact overlap fractions on the mortar's side", f"{side}: max difference {d:.3e}"))
+    return fails
+
+
+def seq2d_inputs(fam, seq):
+    ops = [[o[0], {k: list(v) for k, v in o[1].items()}] if o[0] == "M" else [o[0], list(o[1])] for o in seq]
+    return {"via": "2-D MortarGrid in a plane", "frame": fam.frame, "shape": fam.shape, "scale": str(fam.scale), "ops": ops}
+
+
+def run_seq2d(fam, seq):
+    """Run a sequence of 2-D operations from the matching state; returns [(obligation, signature, inputs, detail)], cut at the first violating step."""
+    out = []
+    intf, state = initial2d(fam)
+    for ob, detail in (check_state2d(fam, state, intf) if not seq else ()):  # the matching state itself is the case with the empty sequence
+        out.append((ob, f"2-D mortar, matching interface, {fam.name}", seq2d_inputs(fam, ()), detail))
+    for n, op in enumerate(seq):
+        if out:
+            break
+        inputs = seq2d_inputs(fam, seq[:n + 1])
+        if op[0] == "S":
+            kind = "update_secondary"
+        else:
+            keys = list(op[1])
+            kind = "update_mortar" + (", second side only" if keys == ["R"] else " one-side" if keys == ["L"] else ", sides given in the order (RIGHT, LEFT)" if keys[0] == "R" else "")
+        sig = f"2-D mortar, {kind}, {fam.name}"
+        try:
+            apply_op2d(fam, state, intf, op)
+            fails = check_state2d(fam, state, intf)
+        except Exception as e:  # noqa: BLE001
+            fails = [("update: raises nothing on admissible grids", f"{type(e).__name__}: {str(e)[:200]}")]
+        out += [(ob, sig, inputs, detail) for ob, detail in fails]
+    return out
+
+
+def check_match2d(fam, a, b, scaling, tol=1e-10, match_tol=1e-6):
+    """match_2d(new=a, old=b) against the exact overlap fractions.  Returns list of (obligation, detail); None when the case is skipped
+    (scaling None and some positive overlap area not clearly above match_2d's tol)."""
+    np, pp = fam.np, fam.pp
+    W, _, _ = fam.overlaps(a, b)
+    if scaling is None:
+        if np.any((W > 0) & (W < 100 * match_tol)):
+            return None
+        E = (W > 0).astype(float)
+    else:
+        E = fam.expected(a, b, "avg" if scaling == "averaged" else "int")
+    try:
+        M = pp.match_grids.match_2d(fam.grid(a), fam.grid(b), match_tol, scaling).toarray().astype(float)
+    except Exception as e:  # noqa: BLE001
+        return [("match_2d: raises nothing on coplanar grids covering the same region", f"{type(e).__name__}: {str(e)[:200]}")]
+    out = []
+    if scaling is not None:
+        sums = M.sum(axis=1) if scaling == "averaged" else M.sum(axis=0)
+        if M.shape != E.shape or float(np.max(np.abs(sums - 1.0))) > tol or np.any(M < -1e-12):
+            out.append(("match_2d: unit row sums (averaged) / unit column sums (integrated)", f"sums {np.round(sums, 12).tolist()}"))
+    if M.shape != E.shape or float(np.max(np.abs(M - E))) > tol:
+        wrong = [(int(i), int(j), round(float(M[i, j]), 9), round(float(E[i, j]), 9)) for i, j in np.argwhere(np.abs(M - E) > tol)] if M.shape == E.shape else []
+        out.append(("match_2d: weights equal the exact overlap fractions", f"shape {M.shape}, wrong entries (new cell, old cell, got, exact): {wrong[:6]}{' ...' if len(wrong) > 6 else ''}"))
+    return out
+
+
+def deviation_kind(fam, a, b, scaling, match_tol=1e-6, tol=1e-10):
+    """Input / failure class used in violation signatures: how match_2d deviates from the exact overlaps on this pair of grids."""
+    np = fam.np
+    try:
+        M = fam.pp.match_grids.match_2d(fam.grid(a), fam.grid(b), match_tol, scaling).toarray().astype(float)
+    except Exception:  # noqa: BLE001
+        return "raises"
+    W, _, _ = fam.overlaps(a, b)
+    E = (W > 0).astype(float) if scaling is None else fam.expected(a, b, "avg" if scaling == "averaged" else "int")
+    if M.shape != E.shape:
+        return "wrong shape"
+    bad = np.abs(M - E) > tol
+    if not bad.any():
+        return "agrees with the exact overlaps"
+    lost, spurious = bool((bad & (M == 0)).any()), bool((bad & (E == 0)).any())
+    if (bad & (M != 0) & (E != 0)).any():
+        return "weights of overlapping cells wrong"
+    return " and ".join(x for x, y in (("whole overlaps lost", lost), ("cells that only touch counted as overlapping", spurious)) if y)
 
 
 # ----------------------------------------------------------------------------- tier P: transposition clause by construction
@@ -543,11 +904,19 @@ def run(rep):
     rep.assume("requires: replacement grids cover the same fracture segment (common end points), secondary and mortar grids have the same dimension, "
                "the fracture is not crossed by another fracture",
                "covered primary faces and their geometric side are taken from the primary grid's fracture_faces tags and geometry")
-    rep.trust("exact rational overlap model of 1-D grids (sidecar oracle)", "pp.meshing.tensor_grid for the primary grids (C25)")
+    rep.trust("exact rational overlap model of 1-D grids (sidecar oracle)", "pp.meshing.tensor_grid for the primary grids (C25)",
+              "exact rational triangle-overlap areas in in-plane coordinates (sidecar oracle, self-checked: overlaps add up to the cell areas)",
+              "StructuredTriangleGrid cell-node connectivity and Grid.compute_geometry for the embedded 2-D grids")
     MS = pp.grids.mortar_grid.MortarSides
     all_bases = bases(pp, np, rep.tier)
     menu = menus(rep.tier)
+    side_menu = side_order_menu(rep.tier)
     depth = 3
+    # histories that contain a side-order operation: length <= 2 in the quick tier (as first or second operation, followed / preceded by
+    # every operation of both menus), <= 3 in the thorough tier with at most one operation after the last side-order operation
+    def side_history_ok(h):
+        pos = [i for i, o in enumerate(h) if o in side_menu]
+        return not pos or (len(h) <= 2 if quick else len(h) - 1 - pos[-1] <= 1)
 
     def op_json(op):
         return [op[0], {k: list(v) for k, v in op[1].items()} if op[0] == "M" else (list(op[1]) if op[0] == "S" else op[1])] + ([op[2]] if op[0] == "M" else [])
@@ -557,7 +926,10 @@ def run(rep):
         "replacement sequences on the MortarGrid",
         rule=f"for each base geometry ({'; '.join(b.name for b in all_bases)}) start from the matching MortarGrid built from porepy's own face_cells and "
              f"apply every sequence of <= {depth} operations from a menu of {len(menu)} (update_mortar both sides / one side / different grids per side, "
-             "update_secondary, update_primary; node sets U1-U6 uniform, N2/N3 non-uniform, reversed node order); all clauses after every step; a "
+             f"update_secondary, update_primary; node sets U1-U6 uniform, N2/N3 non-uniform, reversed node order) plus {len(side_menu)} side-order "
+             "operations (update_mortar given only the second side, or both sides in the key order (RIGHT, LEFT) with different grids; in histories of "
+             f"length <= {2 if quick else 3}{'' if quick else ' with at most one operation after the last of them'}); the cells of a side are the ones "
+             "the MortarGrid reports (side_grids / project_to_side_grids / cell_volumes); all clauses after every step; a "
              "history is cut at its first violating step; non-trivial when at least one grid is non-matching after the step; distinct by (base, "
              "operation sequence)",
         bound=f"sequence length <= {depth}; refinement up to 6 cells on the fracture",
@@ -574,11 +946,13 @@ def run(rep):
             stack = [(intf0, st0, g2_0, g1_0, ())]
             while stack:
                 intf, st, g2, g1, hist = stack.pop()
-                for op in menu:
+                for op in menu + side_menu:
+                    h2 = hist + (op,)
+                    if not side_history_ok(h2):
+                        continue
                     i2, s2 = copy.deepcopy(intf), st.copy()
                     i2._verif_side_sign = intf._verif_side_sign
                     sig = precondition_class(base, st, op, intf)
-                    h2 = hist + (op,)
                     inputs = {"base": base.name, "start": start, "ops": [op_json(o) for o in h2], "via": "MortarGrid"}
                     try:
                         ng2, ng1 = apply_op(base, s2, i2, g2, g1, op)
@@ -599,16 +973,18 @@ def run(rep):
     with rep.sweep(
         "replacement sequences through replace_subdomains_and_interfaces",
         rule="fresh md-grid from pp.meshing.tensor_grid per history; operations issued through MixedDimensionalGrid.replace_subdomains_and_interfaces "
-             "(sd_map for secondary / primary, interface_map in dict or MortarGrid form); all sequences of length <= 2 (quick) / a seeded sample of "
+             "(sd_map for secondary / primary, interface_map in dict or MortarGrid form, also with only the second side or with the sides in the key "
+             "order (RIGHT, LEFT)); all sequences of length <= 2 (quick) / a seeded sample of "
              "length-3 sequences in addition (thorough); clauses after every step; non-trivial when a grid is non-matching after the step",
         bound="sequence length <= 2 (quick), <= 3 (thorough); first base geometry and, in thorough, all",
         exhaustive=quick,
     ) as sw:
-        seqs = [s for n in (1, 2) for s in itertools.product(menu, repeat=n)]
+        menu2 = menu + side_menu  # interface_map with only the second side / with the sides in the key order (RIGHT, LEFT)
+        seqs = [s for n in (1, 2) for s in itertools.product(menu2, repeat=n)]
         if quick:
-            seqs = [s for s in seqs if all(o in menu[:3] + menu[4:6] + menu[7:9] for o in s)]
+            seqs = [s for s in seqs if all(o in menu[:3] + menu[4:6] + menu[7:9] + side_menu for o in s)]
         else:
-            seqs += rep.rng.sample(list(itertools.product(menu, repeat=3)), 150)
+            seqs += rep.rng.sample(list(itertools.product(menu2, repeat=3)), 180)
         for base in (all_bases[:1] if quick else all_bases):
             for seq in seqs:
                 start = "U2"
@@ -678,6 +1054,46 @@ def run(rep):
                         rep.violation("match_1d: weights equal the exact overlap fractions", sig, inputs=inputs,
                                       detail=f"got {np.round(Md, 6).tolist()} expected {np.round(E, 6).tolist()}", confirmed=True)
 
+    # ------------------------------------------------------------------ sweeps 3b, 3c: 2-D mortars in arbitrary planes, exact area oracle
+    fams = families2d(pp, np, rep.tier)
+    specs = specs2d(rep.tier)
+    with rep.sweep(
+        "match_2d in horizontal, vertical and tilted planes",
+        rule=f"for each family ({'; '.join(f.name for f in fams)}): structured triangle grids of the fracture (nx x ny rectangles cut in two, nodes numbered "
+             f"row-wise or column-wise: {', '.join(str(list(s)) for s in specs)}), embedded in the plane; match_2d(new, old) for all ordered pairs x scaling "
+             "(averaged / integrated / None) compared entrywise with exact overlap-area fractions (rational polygon clipping in in-plane coordinates), "
+             "row / column sums; scaling None skipped when a positive overlap is not clearly above tol; non-trivial when the grids differ",
+        bound=f"grids up to {max(s[0] * s[1] * 2 for s in specs)} cells",
+        exhaustive=True,
+    ) as sw:
+        for fam in fams:
+            for a, b in itertools.product(specs, repeat=2):
+                for scaling in ("averaged", "integrated", None):
+                    inputs = {"via": "match_2d", "frame": fam.frame, "shape": fam.shape, "scale": str(fam.scale), "new": list(a), "old": list(b), "scaling": scaling}
+                    res = check_match2d(fam, a, b, scaling)
+                    if res is None:
+                        continue
+                    sw.case(key=(fam.name, a, b, scaling), nontrivial=a != b, sample=inputs if a != b else None)
+                    for ob, detail in res:
+                        rep.violation(ob, f"scaling {scaling}, {fam.name}, {deviation_kind(fam, a, b, scaling)}", inputs=inputs, detail=detail, confirmed=True)
+
+    m2d = menu2d(rep.tier)
+    with rep.sweep(
+        "2-D mortars in horizontal, vertical and tilted planes",
+        rule="for each family of the previous sweep: two-sided 2-D MortarGrid, matching on the 2x2x2 triangle grid with abstract primary faces; every sequence of "
+             f"<= 2 operations from a menu of {len(m2d)} (update_mortar with different grids per side / only the second side / sides in the key order (RIGHT, "
+             "LEFT), update_secondary); sum, transposition and per-side clauses after every step; the blocks that are a single overlap matrix (first replacement "
+             "of a side for the primary maps; after update_secondary, or mortar replaced while it matched the secondary, for the secondary maps) compared with "
+             "exact overlap-area fractions",
+        bound="sequence length <= 2, grids up to 24 cells",
+        exhaustive=True,
+    ) as sw:
+        for fam in fams:
+            for seq in [s for n in (0, 1, 2) for s in itertools.product(m2d, repeat=n)]:
+                for ob, sig, inputs, detail in run_seq2d(fam, seq):
+                    rep.violation(ob, sig, inputs=inputs, detail=detail, confirmed=True)
+                sw.case(key=(fam.name, repr(seq)), nontrivial=len(seq) > 0, sample=seq2d_inputs(fam, seq) if len(seq) == 2 else None)
+
     # ------------------------------------------------------------------ sweep 4 (thorough): 2-D mortars, match_2d
     if not quick:
         with rep.sweep(
@@ -744,6 +1160,19 @@ def replay(data):
 
     warnings.simplefilter("ignore")
     inp = data.get("inputs") or {}
+    if inp.get("via") == "2-D MortarGrid in a plane":
+        fam = Fam2D(pp, np, inp["frame"], inp["shape"], Fr(inp["scale"]))
+        seq = tuple(("M", {k: tuple(v) for k, v in o[1].items()}) if o[0] == "M" else ("S", tuple(o[1])) for o in inp["ops"])
+        res = run_seq2d(fam, seq)
+        for r in res:
+            print("replay:", r[0], "|", r[1], "|", r[3])
+        return bool(res)
+    if inp.get("via") == "match_2d":
+        fam = Fam2D(pp, np, inp["frame"], inp["shape"], Fr(inp["scale"]))
+        res = check_match2d(fam, tuple(inp["new"]), tuple(inp["old"]), inp["scaling"])
+        for r in res or ():
+            print("replay:", r)
+        return bool(res)
     if "ops" in inp and inp.get("via") in ("MortarGrid", "mdg"):
         base = [b for b in bases(pp, np, "thorough") if b.name == inp["base"]][0]
         ops = []
